@@ -260,6 +260,10 @@ class Perp(CompoundTensorOperator):
         if isinstance(A, Zero):
             return Zero(sh, A.ufl_free_indices, A.ufl_index_dimensions)
 
+        # Perp is index free: free indices of the operand would be dropped
+        if A.ufl_free_indices:
+            raise ValueError("Not expecting free indices in Perp.")
+
         return CompoundTensorOperator.__new__(cls)
 
     def __init__(self, A):
